@@ -22,7 +22,8 @@ ALL = ['E101', 'W201', 'W202', 'W203', 'E204', 'W301', 'W302', 'W303', 'W304', '
 def gen_lexicon(rng, k):
     g = docs.Gen(rng, hostile=0.05, rich=0.5)
     v = rng.choice(['1.0', '1.1', '1.3'])
-    lx = g.lexicon('v', '1', v, n_syn=rng.randint(2, 6), n_ent=rng.randint(2, 5))
+    lx = g.lexicon('v', '1', v, n_syn=rng.randint(2, 6), n_ent=rng.randint(2, 5),
+                   requires=([{'id': 'elsewhere', 'version': '9'}] if v != '1.0' and rng.random() < 0.4 else None))
     ents, syns = lx['entries'], lx['synsets']
     senses = [s for e in ents for s in e.get('senses', [])]
     for _ in range(rng.randint(0, 4)):
